@@ -293,6 +293,8 @@ inductive Kind where
   | read
   /-- `AsyncFd::recv(buf, flags)` (net.rs:220-266) -/
   | recv
+  /-- `AsyncFd::recv_from(buf)` with `buf : ReadBuf` (RECVMSG with one iovec, io_uring/net.rs:350-393) -/
+  | recvfrom
   /-- `AsyncFd::multishot_read(pool)` (io.rs:385-415) -/
   | mread
   /-- `AsyncFd::multishot_recv(pool, flags)` (net.rs:270-304) -/
@@ -300,12 +302,13 @@ inductive Kind where
   deriving Repr, DecidableEq
 
 def Kind.multi : Kind → Bool
-  | .read | .recv => false
+  | .read | .recv | .recvfrom => false
   | .mread | .mrecv => true
 
 def Kind.opcode : Kind → String
   | .read => "READ"
   | .recv => "RECV"
+  | .recvfrom => "RECVMSG"
   | .mread => "READ_MULTISHOT"
   | .mrecv => "RECV"
 
@@ -771,6 +774,7 @@ def initSys (ps bs t0 : Nat) : Sys := { pool := init ps bs t0 }
 def parseKind (k : String) : Option Kind :=
   if k == "read" then some .read
   else if k == "recv" then some .recv
+  else if k == "recvfrom" then some .recvfrom
   else if k == "mread" then some .mread
   else if k == "mrecv" then some .mrecv
   else none
